@@ -893,6 +893,16 @@ func (m *Mint) MeltTokens(ctx context.Context, meltTokensRequest nut05.PostMeltB
 		m.logDebugf("quotes '%v' and '%v' have same invoice so settling them internally", meltQuote.Id, mintQuote.Id)
 		meltQuote, err = m.settleQuotesInternally(mintQuote, meltQuote)
 		if err != nil {
+			// if the invoice could not be looked up in the backend nothing was settled and there
+			// is no payment that could settle it later. Set quote back to unpaid and remove the
+			// proofs from pending so that the melt can be tried again
+			if cashuErr, ok := err.(*cashu.Error); ok && cashuErr.Code == cashu.LightningBackendErrCode {
+				m.proofsMu.Lock()
+				if dberr := m.db.UpdateMeltQuote(meltTokensRequest.Quote, "", nut05.Unpaid); dberr == nil {
+					m.db.RemovePendingProofs(Ys)
+				}
+				m.proofsMu.Unlock()
+			}
 			return storage.MeltQuote{}, err
 		}
 		err = m.settleProofs(Ys, proofs)
